@@ -447,7 +447,7 @@ def run_check(check_id: str, tier: str, seed: int, jobs: int | None = None, only
     tasks = [(check_id, c, None) for c in cases]
     can_tasks = []
     if not only:
-        all_cases = {c["name"]: c for c in mod.cases("thorough", seed)} if tier == "quick" else case_by_name
+        all_cases = {c["name"]: c for c in mod.cases("thorough" if tier == "quick" else "quick", seed)}
         for cn in canaries:
             c = case_by_name.get(cn["case"]) or all_cases.get(cn["case"])
             if c is None:
@@ -510,11 +510,18 @@ def run_check(check_id: str, tier: str, seed: int, jobs: int | None = None, only
                 samples.append({"case": case["name"], "cfg": case.get("cfg"), **smp, "paths": r["path_samples"][:1]})
         if not r["complete"] and not case.get("optional"):
             harness_errors.append(f"case {case['name']}: exploration incomplete (left={r['stats']['left']}, paths={r['stats']['paths']})")
+        exc_cex = []
         if r["n_errors"] and not case.get("optional"):
             for e in r["errors"][:2]:
-                harness_errors.append(f"case {case['name']}: {e['kind']}: {e['msg']}\n{e.get('trace', '')}")
-        if r["stats"]["paths"] == 0 and not case.get("optional"):
+                if e["kind"] == "exception" and e.get("values") is not None:
+                    # raised inside the code under test: replayed below; a harness error only if it does not reproduce
+                    exc_cex.append({"name": f"no-exception:{e['exc_type']}", "model": e["values"], "path": e["path"], "verdict": "sat", "exception": e["msg"], "trace": e.get("trace", "")})
+                else:
+                    harness_errors.append(f"case {case['name']}: {e['kind']}: {e['msg']}\n{e.get('trace', '')}")
+        if r["stats"]["paths"] == 0 and not case.get("optional") and not exc_cex:
             harness_errors.append(f"case {case['name']}: no path completed")
+        for ob in exc_cex[:1]:
+            cex.append((case, ob))
         for vp in r.get("validation_points", [])[: (1 if tier == "quick" else 3)]:
             val_points.append((case, vp))
         seen_sig = set()
@@ -552,7 +559,7 @@ def run_check(check_id: str, tier: str, seed: int, jobs: int | None = None, only
                 else:
                     violations.append((case["name"], ob["name"], rr["file"]))
             else:
-                nonrepro.append((case["name"], ob["name"], rr.get("file"), rr.get("error"), rr.get("failed")))
+                nonrepro.append((case["name"], ob["name"], rr.get("file"), rr.get("error") or ob.get("trace"), rr.get("failed")))
     for ln in sorted(info_lines)[:10]:
         print(ln)
 
